@@ -50,7 +50,7 @@ func pickInitRev(r *rt.Rand) uint64 {
 	case 2:
 		return 4294967290 // crosses 2^32
 	case 3:
-		return uint64(1+r.Intn(9)) * 100000 - uint64(r.Intn(30))
+		return uint64(1+r.Intn(9))*100000 - uint64(r.Intn(30))
 	}
 	return uint64(100 + r.Intn(1000000))
 }
@@ -70,10 +70,10 @@ func pickEngine(r *rt.Rand, tier string) (string, bool) {
 
 type writeOpts struct {
 	compactor bool // a client compacting concurrently
-	future   bool // include far-future / huge expected revisions (C04)
-	reads    bool
-	faults   string // "", "err", "uncertain"
-	watchers bool
+	future    bool // include far-future / huge expected revisions (C04)
+	reads     bool
+	faults    string // "", "err", "uncertain"
+	watchers  bool
 }
 
 // genWrites builds the concurrent-writers workload shared by C01, C02 and C04.
